@@ -75,7 +75,9 @@ CLAIMED = {
             "TLC evaluates Run(p) for every program of the families (operators x typed pool incl. all ill-typed pairs, signatures x "
             "call shapes with the positional=named invariant, expression grammar of depth <=2, object programs, indexing/slicing, "
             "precedence nestings, hand-written scope/recursion/laziness programs); the implementation must give the same JSON "
-            "value or fail exactly when the model fails, in every configuration",
+            "value or fail exactly when the model fails, in every configuration; thorough tier: Desugar.tla translates every "
+            "destructuring pattern x position, `??`, `?.` and object iteration as docs/features.adoc states, and the experimental build "
+            "must evaluate sugar and translation to the same outcome",
             "trusted: TLC, the transcription of the Jsonnet semantics in Core.tla (call-by-name; integers < 1e9, exact division; "
             "fuel-bounded: programs outside this domain are not judged); the pretty-printer of the driver",
             "DESIGN.md §4 C01"),
@@ -148,7 +150,10 @@ CLAIMED = {
             "program x configuration (hash-order / did-you-mean / multi-failure / std.trace / ext+tla hazards, cyclic and erroring "
             "corpora, repository programs, TLC-enumerated Core programs) is run in 5+ fresh processes, on a used thread after every "
             "sampled history, inside a long-lived State and after pre-interning 1/1000/50000 strings; digests of output + error "
-            "text + trace + std.trace lines form an Observe trace that Trace_Determinism accepts only if it is functional",
+            "text + trace + std.trace lines form an Observe trace that Trace_Determinism accepts only if it is functional; "
+            "System.tla composes frame counter, per-state file cache, pipeline, memo and collector of one thread (IdleClean, ReadOnce, "
+            "EnteredWhileRunning, Functional, Reclaimed checked by TLC); TLC-enumerated schedules of evaluations on one state are "
+            "recorded (hook events) and validated step by step by Trace_System, which reuses System's actions",
             "sampled programs and contexts, not all; wall-clock, memory limits and native stack exhaustion are outside",
             "DESIGN.md section C16"),
     "C17": ("TLA+ specs Lexing (cursor machine: tokens tile the text, tree spells the input) and Position (characters with UTF-8 "
